@@ -2,7 +2,8 @@
 """Sensitivity: apply each mutant (textual substitution) to a scratch copy of /repo/mpyc and run
 the named checks against it with DSIM_REPO; every listed check is expected to exit 1.
 
-usage: run_mutants.py [name-substring ...]      (scratch copies live under /tmp and are removed)
+usage: run_mutants.py [name-substring ...]      (scratch copies live under /tmp and are removed; MUT_SRC=<dir> takes the
+sources from a clean copy of the repository instead of /repo, e.g. while seeded_rerun.py is patching /repo)
 """
 import json
 import os
@@ -24,7 +25,7 @@ def main():
             continue
         d = tempfile.mkdtemp(prefix='dsim_mut_')
         try:
-            shutil.copytree('/repo/mpyc', os.path.join(d, 'mpyc'))
+            shutil.copytree(os.path.join(os.environ.get('MUT_SRC', '/repo'), 'mpyc'), os.path.join(d, 'mpyc'))
             path = os.path.join(d, 'mpyc', mu['file'])
             src = open(path).read()
             if src.count(mu['old']) != 1:
